@@ -91,7 +91,7 @@ func runC01(r *Run) {
 	r.OnCondMustCall(gen, "eq(constants.ErrContractMethodNotFound,$method#1)", "vm.(*VM).rollbackEmbedded", "a method that disappeared between send and receive is refunded")
 	r.MustPassAny(gen, []string{".Done", "vm.(*VM).rollbackEmbedded"}, "state changes are committed (Done) only on the success path; every other exit is a rollback")
 	r.MustPassAny(gen, []string{"vm.(*VM).finalizeEmbedded", "vm.(*VM).rollbackEmbedded"}, "the receive block is always finalised from the executed context")
-	r.ArgIs(gen, "vm.(*VM).applySend", 0, []string{r.X("$method#0.ReceiveBlock(recv.context,$send)#0[(iter+1)]")}, "every descendant returned by the contract is applied (debited) through applySend")
+	r.ArgIs(gen, "vm.(*VM).applySend", 0, []string{r.X("$method#0.ReceiveBlock(recv.context,$send)#0[iter]")}, "every descendant returned by the contract is applied (debited) through applySend")
 	r.Has(gen, r.X("recv.finalizeEmbedded(a0,$method#0.ReceiveBlock(recv.context,$send)#0,nil)"), "the finalised block carries exactly the descendants that were debited")
 
 	rb := "vm.(*VM).rollbackEmbedded"
